@@ -5,6 +5,7 @@ package main
 
 import (
 	"fmt"
+	"os"
 	"reflect"
 	"strings"
 
@@ -378,6 +379,9 @@ func (g *bindGen) argFor(name string, allowBulk bool) any {
 			if r.chance(1, 60) {
 				// lengths around the powers of two (tables, packed keys and caches have such bounds)
 				n = []int{63, 64, 65, 255, 256, 257, 1023, 1024, 1025, 4095, 4096, 4097}[r.intn(12)]
+				if thoroughTier && r.chance(1, 60) {
+					n = []int{16383, 16384, 16385, 32766, 32767, 65535, 65536, 65537}[r.intn(8)]
+				}
 			}
 			s := reflect.MakeSlice(t, n, n)
 			for i := 0; i < n; i++ {
@@ -514,6 +518,9 @@ func (g *bindGen) lay(s string) string {
 	}
 	return s[:i] + g.r.pick([]string{"\n", "\t", "\r\n", " -- c\n", " /* c */ ", "\n-- $T.x 'q\n", " /* ' */"}) + s[i+1:]
 }
+
+// thoroughTier: the deep tier also probes sizes around 2^14 .. 2^16.
+var thoroughTier = os.Getenv("VERIF_TIER") == "thorough"
 
 // wideSelect: a statement with very many output columns (into a map, plus a wide struct), and sometimes as
 // many inputs: alias and placeholder numbers with two and three digits.
